@@ -28,6 +28,14 @@ patchLines, keyword arguments, the patches materialised as a list / as an iterat
 applied one at a time, applied by the slice assignment the triples are documented to mean, a list subclass as the line
 store, a second reader of the other type alive and advanced in step, and lines and script without their newlines
 (what str.splitlines() gives).  A failure only routes show is reported as ed/route/<which routes>/...
+
+Beyond the small scope (bounds()["beyond_the_small_scope"]): count ladders - 1..40 ... 1025 hunks per script in nine
+arrangements, the same hunks as n scripts in a row, 1..40 ... 5000 lines per text block / per deleted range (plain, look-alike,
+command-like and blank lines), unterminated blocks of those lengths, a malformed command at every position of scripts of 1..40
+hunks, two commands at one address (Nd + (N-1)a, Na + Na, Nd + Nd ...) at every position of scripts of 1..40 and 100 hunks,
+files of 1002 / 10002 lines (4- and 5-digit addresses; thorough 100002) - and a size ladder for one line (997 .. 262145
+characters).  Scripts are written directly from hunk lists; the expected result is the model interpreter's.  Signatures start
+with ladder/ or size/.
 """
 import io
 import os
@@ -108,6 +116,32 @@ def bounds(tier):
                           "" if not ROUTE_REJECT_FEW_MAXLEN[tier] else ", %r up to length %d" % (REJECT_ROUTES_FEW, ROUTE_REJECT_FEW_MAXLEN[tier])),
             "corruptions": "pairs of length <= %d of the base space: every command line x %r; every cut inside a text "
                            "block" % (CORRUPT_MAXLEN[tier], [b for _, b in BADS])}
+    out["beyond_the_small_scope"] = {
+        "hunks per script": "every n in 1..40 and %r hunks (3 lines of file per hunk), arrangements %r (all of one command form; the "
+                            "five forms in rotation; one range deletion first / in the middle / last among one-line changes)"
+                            % ([n for n in SCALE_HUNK_COUNTS if n > 40], HUNK_ARRS),
+        "scripts in a row": "the same hunks as n one-command scripts applied one after the other to one list, n in 1..40 and "
+                            "%r, arrangements cycle / all-a / all-dN" % [n for n in SCALE_HUNK_COUNTS if 40 < n <= 257],
+        "malformed command among many": "scripts of n = 1..40 hunks: the command at EVERY position k replaced by each of %r; n = 100: "
+                                        "one of them per position in rotation" % [b for _, b in SCALE_BADS],
+        "lines per text block / per range": "every n in 1..40 and %r: a block of n lines as %r x block texts %r; ranges of n lines "
+                                            "deleted / changed" % ([n for n in SCALE_COUNTS if n > 40], BLOCK_ARRS[:6], BLOCK_TEXTS),
+        "unterminated block of n lines": "the same n, the block being the whole script / the last of 3 commands (%r), all block texts"
+                                         % OPEN_ARRS,
+        "two commands at one address": "scripts of h hunks, h in 1..40 and 100, the hunk at EVERY position k replaced by each of the "
+                                       "pairs %r at its address (expected result: the model's ed interpreter)" % PAIR_FORMS,
+        "address digits": "files of %r lines: every single hunk and every pair of non-overlapping hunks of the 'long' hunk set (top "
+                          "of the file, the last five lines: addresses and ranges crossing 999/1000 and 9999/10000%s)"
+                          % (ADDR_SIZES[tier], " and 99999/100000" if tier != "quick" else ""),
+        "line sizes": "a file line and a text-block line of %r characters (+ newline) starting with each of %r, changed / appended / "
+                      "deleted" % (SCALE_SIZES, LINE_HEADS),
+        "input kinds": SCALE_KINDS, "types": ["str", "bytes"],
+        "thinned out in the quick tier": "none" if tier != "quick" else (
+            "hunks: n > 257 only in arrangements cycle / odd-middle; malformed command: every kind at the first, middle and last "
+            "position, one kind in rotation at the others; text blocks with n > 40: change-only / last-of-3 / delete-range, n > 257 "
+            "plain and '..' lines only; unterminated blocks with n > 40: plain and '..' lines; two commands at one address: every "
+            "pair form for h in %r, d+a and a+d for every other h, list input only for h > 5; 10002-line file: single hunks and "
+            "pairs (top of file, end of file)" % PAIR_HUNKS_ALL_FORMS)}
     if tier != "quick":
         out["long"] = ("files of %s lines (addresses of %s digits at the end of the file): one hunk and two non-overlapping "
                        "hunks at the top and around the last five lines" % (
@@ -135,6 +169,13 @@ def assumptions():
             "str.splitlines() gives - the library's own terminator test names '.' next to '.\\n' - and in that form an empty "
             "string is the library's end-of-stream marker, so empty content lines are not generated there (none of the line "
             "alphabets has one)",
+            "beyond the small scope: scripts are built directly from hunk lists (an LCS diff of a 5000-line file is not needed to "
+            "know the script), bottom-up like diff -e; the expected lines come from the model's ed interpreter and, where the "
+            "script was made from hunks, must equal plain slicing (a model self-check; skipped above 1002 lines for cost); every "
+            "count of a ladder and every position of the varied element is run - nothing is sampled; the inputs are regenerated "
+            "from the compact description in the case",
+            "two commands at one address (Nd then (N-1)a, Na twice, Nd twice ...) are ordinary sequential ed commands - the series "
+            "of pdiffs given as one script already relies on that reading",
             "edscript.diff / edscript.apply are self-checked on the length <= 3 universe and every diff -e script used is "
             "first validated by edscript.apply"]
 
@@ -181,6 +222,7 @@ def units(tier, seed):
     # two successive scripts (old -> mid -> new, as a series of pdiffs) given as ONE script: ed commands act one after the
     # other, each on the result of those before it
     out += [{"space": "chain", "old": old} for old in edscript.all_lists(sym, CHAIN_MAXLEN[tier])]
+    out += scale_units(tier)
     return out
 
 
@@ -232,6 +274,8 @@ def long_news(old, first):
 
 
 def unit_cost(u, tier):
+    if u.get("space") == "scale":
+        return 5000
     if u.get("space") == "chain":
         return 170 if tier == "quick" else 1600
     if tier != "quick":
@@ -564,6 +608,9 @@ def run_unit(u, tier, seed):
     if u.get("space") == "chain":
         _run_chain(part, u, tier, seed)
         return part
+    if u.get("space") == "scale":
+        _run_scale(part, u, tier, seed)
+        return part
     if "olds" in u:
         for old in u["olds"]:
             _run_old(part, {"space": u["space"], "old": old}, tier, seed)
@@ -670,17 +717,350 @@ def _run_old(part, u, tier, seed):
             differ.close()
 
 
+# ------------------------------------------------------------------------------------------------ beyond the small scope
+
+SCALE_COUNTS = list(range(1, 41)) + [63, 64, 65, 100, 127, 128, 129, 255, 256, 257, 999, 1000, 1001, 1025, 2500, 2501, 5000]
+SCALE_HUNK_COUNTS = [n for n in SCALE_COUNTS if n <= 1025]
+SCALE_SIZES = [997, 998, 999, 1000, 4095, 4096, 4097, 16383, 16384, 16385, 65535, 65536, 65537, 131071, 131072, 131073,
+               262143, 262144, 262145]
+HUNK_ARRS = ["all-d1", "all-dN", "all-c1", "all-cN", "all-a", "cycle", "odd-first", "odd-middle", "odd-last"]
+BLOCK_ARRS = ["change-only", "append-only", "append-at-0", "first-of-3", "middle-of-3", "last-of-3", "delete-range", "change-range"]
+BLOCK_TEXTS = ["plain", "dotdot", "commands", "blank", "blank-alternating"]
+OPEN_ARRS = ["change-only", "append-only", "last-of-3"]
+PAIR_FORMS = ["d+a", "a+d", "a+a", "d+d", "c+a", "a+c", "d+c", "c+d"]
+PAIR_HUNKS = list(range(1, 41)) + [100]
+PAIR_HUNKS_ALL_FORMS = [1, 2, 3, 5, 8, 13, 21, 25, 26, 33, 40]      # quick: every pair form for these, d+a and a+d for the others
+ADDR_SIZES = {"quick": [1002, 10002], "thorough": [1002, 10002, 100002]}
+LINE_HEADS = ["x", ".", "..", ". ", "1d", "é"]
+SCALE_KINDS = ["list", "iter", "stream"]
+SCALE_BADS = [("garbage", "x\n"), ("unknown-command", "1z\n"), ("trailing-garbage", "1dx\n"), ("leading-blank", " 1d\n"),
+              ("range-on-append", "1,2a\n"), ("empty-string", "")]
+
+
+def _script_from_hunks(hunks):
+    """hunks (first, last, replacement) 1-based inclusive, first > last = insertion after `last` -> ed script, bottom-up"""
+    out = []
+    for i, j, rep in sorted(hunks, key=lambda h: -h[0]):
+        if i > j:
+            out.append("%da\n" % j)
+        else:
+            out.append(("%d" % i if i == j else "%d,%d" % (i, j)) + ("c\n" if rep else "d\n"))
+        if rep:
+            out += list(rep) + [".\n"]
+    return out
+
+
+def _apply_hunks(lines, hunks):
+    out = list(lines)
+    for i, j, rep in sorted(hunks, key=lambda h: -h[0]):
+        out[i - 1:j] = rep
+    return out
+
+
+def _hunk_at(kind, at, k):
+    return {"d1": (at, at, []), "dN": (at, at + 1, []), "c1": (at, at, ["x%d\n" % k]), "cN": (at, at + 1, ["x%d\n" % k, "y%d\n" % k]),
+            "a": (at + 1, at, ["x%d\n" % k])}[kind]
+
+
+def _ladder_hunks(h, arr):
+    cyc = ["d1", "c1", "a", "dN", "cN"]
+    hs = []
+    for k in range(h):
+        if arr.startswith("all-"):
+            kind = arr[4:]
+        elif arr == "cycle":
+            kind = cyc[k % 5]
+        else:
+            odd = {"odd-first": 0, "odd-middle": h // 2, "odd-last": h - 1}[arr]
+            kind = "dN" if k == odd else "c1"
+        hs.append(_hunk_at(kind, 3 * k + 2, k))
+    return hs
+
+
+def _block_text(n, text):
+    if text == "plain":
+        return ["t%d\n" % i for i in range(n)]
+    if text == "dotdot":
+        return ["..\n"] * n
+    if text == "commands":
+        return [("%dd\n", "%da\n", "%d,%dc\n")[i % 3] % ((i + 1,) if i % 3 < 2 else (i + 1, i + 2)) for i in range(n)]
+    if text == "blank":
+        return ["\n"] * n
+    return ["\n" if i % 2 else "t%d\n" % i for i in range(n)]
+
+
+_ADDR_OLD = {}
+
+
+def scale_build(case):
+    """-> (old, script, new or None): the inputs are generated from the compact description; new is None for a script that has
+    to be refused.  The expected result comes from the model interpreter edscript.apply (and, where the script was made from
+    hunks, must agree with plain slicing - a check of the model, not of the library)."""
+    fam = case["scale"]
+    hunks = None
+    if fam in ("hunks", "session", "bad-command"):
+        h = case["n"]
+        old = ["l%d\n" % i for i in range(1, 3 * h + 3)]
+        hunks = _ladder_hunks(h, case["arr"])
+        script = _script_from_hunks(hunks)
+        if fam == "bad-command":
+            pos = edscript.split_commands(script)[case["k"]][0]
+            script = list(script)
+            script[pos] = dict(SCALE_BADS)[case["bad"]]
+            return old, script, None
+    elif fam in ("block", "block-open"):
+        n, arr = case["n"], case["arr"]
+        text = _block_text(n, case["text"])
+        if arr in ("delete-range", "change-range"):
+            old = ["l%d\n" % i for i in range(1, n + 5)]
+            hunks = [(3, n + 2, [] if arr == "delete-range" else ["x\n"])]
+        else:
+            old = ["l%d\n" % i for i in range(1, 7)]
+            hunks = {"change-only": [(3, 3, text)], "append-only": [(4, 3, text)], "append-at-0": [(1, 0, text)],
+                     "first-of-3": [(5, 5, text), (3, 3, ["x\n"]), (1, 1, [])], "middle-of-3": [(5, 5, []), (3, 4, text), (1, 1, ["x\n"])],
+                     "last-of-3": [(5, 6, ["x\n"]), (3, 3, []), (1, 1, text)]}[arr]
+        script = _script_from_hunks(hunks)
+        if fam == "block-open":
+            assert script[-1] == ".\n"
+            return old, script[:-1], None
+    elif fam == "pair":
+        h, k, form = case["h"], case["k"], case["form"]
+        old = ["l%d\n" % i for i in range(1, 3 * h + 4)]
+        hs = _ladder_hunks(h, "cycle")
+        at = 3 * k + 2
+        A = lambda a, t: ["%da\n" % a, t, ".\n"]
+        C = lambda a, t: ["%dc\n" % a, t, ".\n"]
+        D = lambda a: ["%dd\n" % a]
+        pair = {"d+a": D(at) + A(at - 1, "P\n"), "a+d": A(at - 1, "P\n") + D(at), "a+a": A(at, "P\n") + A(at, "Q\n"),
+                "d+d": D(at) + D(at), "c+a": C(at, "P\n") + A(at, "Q\n"), "a+c": A(at, "P\n") + C(at, "Q\n"),
+                "d+c": D(at) + C(at, "Q\n"), "c+d": C(at, "P\n") + D(at)}[form]
+        script = _script_from_hunks(hs[k + 1:]) + pair + _script_from_hunks(hs[:k])
+        return old, script, edscript.apply(old, script)
+    elif fam == "addr":
+        if _ADDR_OLD.get("n") != case["n"]:
+            _ADDR_OLD.update(n=case["n"], old=["l%d\n" % i for i in range(1, case["n"] + 1)])
+        old = _ADDR_OLD["old"]          # (never modified: every execution works on a copy)
+        hunks = [(i, j, list(rep)) for i, j, rep in case["hunks"]]
+        script = _script_from_hunks(hunks)
+    elif fam == "line":
+        L, head = case["L"], case["head"]
+        long1 = head + ("ab" * L)[:L - len(head)] + "\n"
+        long2 = head + ("yz" * L)[:L - len(head) - 1] + "é\n"
+        old = ["a\n", long1, "c\n"]
+        hunks = {"change": [(2, 2, [long2])], "append": [(3, 2, [long2])], "delete": [(2, 2, [])],
+                 "change+delete": [(3, 3, [long2, long1]), (1, 2, [])]}[case["arr"]]
+        script = _script_from_hunks(hunks)
+    else:
+        raise ValueError(fam)
+    new = _apply_hunks(old, hunks)
+    if fam != "addr" or case["n"] <= 1002:
+        if edscript.apply(old, script) != new:
+            raise AssertionError("model: the interpreter and plain slicing disagree for %r" % (case,))
+    return old, script, new
+
+
+def _scale_one(case, old, script, new, binary, kind):
+    from debian.debian_support import patches_from_ed_script, patch_lines
+    lines = list(old)
+    if case["scale"] == "session":
+        # one script per hunk, applied one after the other to the same list (the series a pdiff client goes through)
+        cmds = edscript.split_commands([s.decode("utf-8") for s in script] if binary else script)
+        sources = [script[pos:end + 1] for pos, end, _ in cmds]
+    else:
+        sources = [script]
+    try:
+        for src in sources:
+            patch_lines(lines, patches_from_ed_script(make_source(kind, src, binary)))
+    except ValueError as e:
+        if new is None:
+            return None
+        return ("raises-ValueError", "%d lines" % len(new), "ValueError: %s" % (str(e)[:200],))
+    except Exception as e:
+        name = type(e).__name__
+        return ("raises-%s" % name, "ValueError" if new is None else "%d lines" % len(new), "%s: %s" % (name, str(e)[:200]))
+    if new is None:
+        return ("accepted", "ValueError", "no exception; %d lines" % len(lines))
+    if lines != new:
+        k = next((i for i, (a, b) in enumerate(zip(lines, new)) if a != b), min(len(lines), len(new)))
+        short = lambda l: l if len(l) < 60 else l[:30] + (b"..." if binary else "...") + l[-20:]
+        return ("wrong-result", "%d lines; line %d = %r" % (len(new), k + 1, short(new[k]) if k < len(new) else None),
+                "%d lines; line %d = %r" % (len(lines), k + 1, short(lines[k]) if k < len(lines) else None))
+    return None
+
+
+def scale_prefix(case):
+    fam = case["scale"]
+    if fam == "hunks":
+        return "ladder/hunks/%s" % case["arr"]
+    if fam == "session":
+        return "ladder/scripts-in-a-row/%s" % case["arr"]
+    if fam == "bad-command":
+        return "ladder/hunks/malformed-command/%s" % case["bad"]
+    if fam == "block":
+        return "ladder/block-lines/%s" % case["arr"]
+    if fam == "block-open":
+        return "ladder/block-lines/unterminated/%s" % case["arr"]
+    if fam == "pair":
+        return "ladder/pair-at-one-address/%s" % case["form"]
+    if fam == "addr":
+        return "ladder/address-digits/%d" % len(str(case["n"]))
+    return "size/line/%s" % case["arr"]
+
+
+def exec_scale_case(case, built=None, cache=None):
+    """-> list of (sig, expected, observed)"""
+    old, script, new = built or scale_build(case)
+    out = []
+    for kind in case.get("kinds", SCALE_KINDS):
+        if kind == "stream" and any(l == "" for l in script):
+            continue
+        res = {}
+        for binary in (False, True):
+            if cache is not None and ("old", binary) in cache:
+                o = cache[("old", binary)]
+            else:
+                o = _conv(binary)(old)
+                if cache is not None:
+                    cache[("old", binary)] = o
+            res[binary] = _scale_one(case, o, _conv(binary)(script), None if new is None else (
+                _apply_hunks(o, [(i, j, _conv(binary)(rep)) for i, j, rep in case["hunks"]]) if case["scale"] == "addr" else _conv(binary)(new)),
+                binary, kind)
+        rs, rb = res[False], res[True]
+        pre = scale_prefix(case) + ("" if kind == "list" else "/given-as-" + kind)
+        if rs is None and rb is None:
+            continue
+        if rs is not None and rb is not None and rs[0] == rb[0]:
+            out.append(("%s/%s" % (pre, rs[0]), rs[1], rs[2]))
+        else:
+            if rs is not None:
+                out.append(("%s/%s/%s" % (pre, rs[0], "str-only" if rb is None else "str"), rs[1], rs[2]))
+            if rb is not None:
+                out.append(("%s/%s/%s" % (pre, rb[0], "bytes-only" if rs is None else "bytes"), rb[1], rb[2]))
+        if kind == "list":
+            break           # the other kinds would only repeat it
+    return out
+
+
+def scale_units(tier):
+    out = [{"space": "scale", "family": "hunks", "arr": arr} for arr in HUNK_ARRS]
+    out += [{"space": "scale", "family": "session"}, {"space": "scale", "family": "bad-command"}]
+    out += [{"space": "scale", "family": "block", "text": t} for t in BLOCK_TEXTS]
+    out += [{"space": "scale", "family": "block-open"}]
+    out += [{"space": "scale", "family": "pair", "h": h} for h in PAIR_HUNKS]
+    out += [{"space": "scale", "family": "addr", "n": n, "half": half} for n in ADDR_SIZES[tier] for half in (0, 1, 2, 3)]
+    out += [{"space": "scale", "family": "line"}]
+    return out
+
+
+def _scale_cases(u, tier):
+    """the cases of one unit; the quick tier thins the most expensive ladders out (bounds() says how), thorough runs them in full"""
+    fam = u["family"]
+    quick = tier == "quick"
+    if fam == "hunks":
+        for n in SCALE_HUNK_COUNTS:
+            if quick and n > 257 and u["arr"] not in ("cycle", "odd-middle"):
+                continue
+            yield {"scale": "hunks", "n": n, "arr": u["arr"]}, n
+    elif fam == "session":
+        for arr in ("cycle", "all-a", "all-dN"):
+            for n in [x for x in SCALE_HUNK_COUNTS if x <= 257]:
+                yield {"scale": "session", "n": n, "arr": arr}, n
+    elif fam == "bad-command":
+        for n in [x for x in SCALE_HUNK_COUNTS if x <= 40] + [100]:
+            for k in range(n):
+                for b, (name, _bad) in enumerate(SCALE_BADS):
+                    if (n > 40 or (quick and k not in (0, n // 2, n - 1))) and b != (k + n) % len(SCALE_BADS):
+                        continue
+                    case = {"scale": "bad-command", "n": n, "arr": "cycle", "k": k, "bad": name}
+                    if name == "empty-string":
+                        case["kinds"] = ["list", "iter"]
+                    yield case, n
+    elif fam == "block":
+        for n in SCALE_COUNTS:
+            for arr in BLOCK_ARRS:
+                if arr in ("delete-range", "change-range") and u["text"] != "plain":
+                    continue
+                if quick and n > 40 and (arr not in ("change-only", "last-of-3", "delete-range") or
+                                         (n > 257 and u["text"] not in ("plain", "dotdot"))):
+                    continue
+                yield {"scale": "block", "n": n, "arr": arr, "text": u["text"]}, n
+    elif fam == "block-open":
+        for n in SCALE_COUNTS:
+            for arr in OPEN_ARRS:
+                for text in BLOCK_TEXTS:
+                    if quick and n > 40 and text not in ("plain", "dotdot"):
+                        continue
+                    yield {"scale": "block-open", "n": n, "arr": arr, "text": text}, n
+    elif fam == "pair":
+        for k in range(u["h"]):
+            for form in PAIR_FORMS:
+                if quick and u["h"] not in PAIR_HUNKS_ALL_FORMS and form not in ("d+a", "a+d"):
+                    continue
+                case = {"scale": "pair", "h": u["h"], "k": k, "form": form}
+                if quick and u["h"] > 5:
+                    case["kinds"] = ["list"]
+                yield case, u["h"]
+    elif fam == "addr":
+        n = u["n"]
+        hs = long_hunks(n)
+        for a in range(len(hs)):
+            if a % 4 != u["half"]:
+                continue
+            yield {"scale": "addr", "n": n, "hunks": [hs[a]], "kinds": ["list"] if n > 1002 else SCALE_KINDS}, 1
+            lo1, hi1 = hs[a][0], max(hs[a][1], hs[a][0] - 1)
+            for h2 in hs[a + 1:]:
+                lo2, hi2 = h2[0], max(h2[1], h2[0] - 1)
+                if quick and n > 1002 and not (hi1 <= 4 and lo2 > 4):
+                    continue            # quick: in the 5-digit file only pairs of a hunk at the top with one at the end
+                if hi1 < lo2 - 1 or hi2 < lo1 - 1:
+                    yield {"scale": "addr", "n": n, "hunks": [hs[a], h2], "kinds": ["list"]}, 2
+    elif fam == "line":
+        for L in SCALE_SIZES:
+            for head in LINE_HEADS:
+                for arr in ("change", "append", "delete", "change+delete"):
+                    yield {"scale": "line", "L": L, "head": head, "arr": arr}, L
+
+
+def _run_scale(part, u, tier, seed):
+    cache = {} if u["family"] == "addr" else None
+    for case, rank in _scale_cases(u, tier):
+        built = scale_build(case)
+        bad = exec_scale_case(case, built, cache)
+        n = 2 * len(case.get("kinds", SCALE_KINDS))
+        part.states += 1
+        part.traces += n
+        part.evaluations += n
+        part.transitions += n * len(built[1])
+        part.max_depth = max(part.max_depth, len(built[1]) if len(built[1]) < 100000 else 0)
+        for sig, exp, obs in bad:
+            part.violation(sig, case, exp, obs, rank=rank)
+        if bad:
+            part.outcomes["VIOLATION:" + bad[0][0]] += 1
+        else:
+            part.outcomes[("refused: " if built[2] is None else "applied: ") + scale_prefix(case)] += 1
+            part.nontrivial += 1
+            part.extra["beyond the small scope: %s cases" % u["family"]] += 1
+        if rank in (40, 65536) or (u["family"] == "addr" and len(part.samples) < 1):
+            part.sample(case)
+
+
 def exec_chain_case(case):
     return [("ed/two-scripts-in-one/" + sig.partition("/")[2], exp, obs) for sig, exp, obs in exec_case(case)]
 
 
 def replay(case):
+    if case.get("scale"):
+        return exec_scale_case(case)
     if case.get("src") == "model-chain":
         return exec_chain_case(case)
     return exec_case(case)
 
 
 def repro_py(case):
+    if case.get("scale"):
+        return ("from mc.props import c18\ncase = %r\n"
+                "old, script, new = c18.scale_build(case)      # generated from the description; new is None = must be refused\n"
+                "bad = c18.exec_scale_case(case)\nassert not bad, bad\n" % (case,))
     return ("import io, tempfile\n"
             "from debian.debian_support import patches_from_ed_script, patch_lines\n"
             "case = %r\n"
